@@ -10,7 +10,7 @@ pub use remote_client::RemoteClient;
 pub use crate::error::CasClientError;
 pub use crate::interface::ShardClientInterface;
 #[cfg(xet_verif)]
-pub use crate::interface::{RegistrationClient, ShardDedupProber};
+pub use crate::interface::{RegistrationClient as VerifRegistrationClient, ShardDedupProber};
 
 mod error;
 mod http_client;
